@@ -1587,7 +1587,7 @@ def check_c20(tier):
             if r["inform"] and len(samples) < 5 and i % 701 == 3:
                 samples.append({"text": r["text"], "u8": r["got"].get("u8"), "i16": r["got"].get("i16"), "float": r["fgot"]})
     ev = {"property_id": "C20", "tier": tier, "seed": seed(), "level": "exploration",
-          "coverage": {"evaluations": nrec, "distinct_nontrivial": inform, "rule": "TLC enumerates (spec/numbers/Numbers.tla) every text of up to %d symbols over the integer alphabet {0,1,7,8,9,a,f,x,b,+,-,a two-byte character} with the value of its lexical form and whether it fits each of 8 integer widths; every text of up to %d symbols over the numerical alphabet {0,1,5,.,e,-%s} plus INF/-INF/NaN/true/false with mantissa and exponent of its value (compared with the shortest round-trip form of the returned f64) and its boolean reading; every string of up to %d of the characters & < > ' \" a blank as attribute value and element text of a written and strictly re-loaded document; non-trivial = the text is in one of the AUTOSAR lexical forms; plus format->parse round trips of boundary u64 values, f64 classes and all enumeration items; no interpretation may panic" % (maxlen, maxlen + 1, "" if tier == "quick" else ",E,+", maxlen - 1),
+          "coverage": {"evaluations": nrec, "distinct_nontrivial": inform, "rule": "TLC enumerates (spec/numbers/Numbers.tla) every text of up to %d symbols over the integer alphabet {0,1,7,8,9,a,f,x,b,+,-,a two-byte character} with the value of its lexical form and whether it fits each of 8 integer widths; every text of up to %d symbols over the numerical alphabet {0,1,5,.,e,-%s} (length up to 5 in both tiers) plus INF/-INF/NaN/true/false with mantissa and exponent of its value (compared with the shortest round-trip form of the returned f64) and its boolean reading; every string of up to %d of the characters & < > ' \" a blank as attribute value and element text of a written and strictly re-loaded document; non-trivial = the text is in one of the AUTOSAR lexical forms; plus format->parse round trips of boundary u64 values, f64 classes and all enumeration items; no interpretation may panic" % (maxlen, maxlen + 1, "" if tier == "quick" else ",E,+", maxlen - 1),
                        "samples": samples or ["none"], "exhaustive": True},
           "assumptions": ["values below 2^31 only (TLC integers); correct rounding of arbitrary decimal texts, the full u64/i64 range and overflow at 2^32 / 2^64 are not covered (DESIGN 6.20)"],
           "wall_s": round(time.time() - t0, 2), "violations": viol}
